@@ -170,10 +170,10 @@ def _dispatch(a):
 
 def check(tier):
     ck = core.Check("C16", tier)
-    shards, n = (14, 60) if tier == "quick" else (56, 150)
+    shards, n = (14, 60) if tier == "quick" else (224, 150)
     jobs = []
     for i in range(shards):
-        small = (tier == "thorough" and i % 4 == 0)
+        small = (i % 4 == 3)
         jobs.append(("w", (ck.seed, i, n, "asan-small" if small else "asan", "asan++-small" if small else "asan++")))
     jobs.append(("b", (ck.seed, "ansic", "asan", "asan++")))
     jobs.append(("b", (ck.seed, 7000 if tier == "quick" else 40000, "asan", "asan++")))
